@@ -61,7 +61,7 @@ PATTERNS = ("none", "first-slow", "last-slow", "odd-slow", "staggered", "late-hi
 
 
 def gen_cases(tier: str, seed: int):
-    n = {"quick": 30, "thorough": 300}[tier]
+    n = {"quick": 30, "thorough": 500}[tier]
     rng = np.random.default_rng([seed, 14])
     for i in range(n):
         adapters, stager = [([], None), (["step"], None), (["step", "var"], [2, 1, 1, 2.0]), (["step"], "warmup")][i % 4]
@@ -76,7 +76,7 @@ def gen_cases(tier: str, seed: int):
         for _ in range(k):
             runs.append({"n_process": int(rng.choice([2, 2, 3, 4])), "pattern": str(rng.choice(PATTERNS))})
         yield {"kind": "schedule", "cfg": cfg, "runs": runs, "seed": [seed, i]}
-    m = {"quick": 24, "thorough": 240}[tier]
+    m = {"quick": 24, "thorough": 480}[tier]
     for i in range(m):
         cfg = {"n_chain": 2, "n_warm": 0, "n_main": int(rng.choice([3, 5])), "adapters": [], "seed": int(rng.integers(0, 10**6)),
                "model_seed": int(rng.integers(0, 100)), "dim": 2, "trace": ["pos"], "transition": ["static", "multinomial", "slice"][i % 3],
